@@ -122,6 +122,14 @@ def mutate (d : List UInt8) (kind : String) (a b : Nat) : List UInt8 :=
     if d.isEmpty then d else d.mapIdx fun i v => if i == a % d.length then UInt8.ofNat b else v
   else if kind == "trunc" then d.take (a % (d.length + 1))
   else if kind == "app" then d ++ [UInt8.ofNat a]
+  else if kind == "nib" then
+    d.mapIdx fun i v =>
+      (List.range 4).foldl (fun (v : UInt8) k =>
+        let bit := a + k
+        if bit / 8 == i then
+          let cleared := v &&& ~~~ (UInt8.ofNat (2 ^ (bit % 8)))
+          if (b / 2 ^ k) % 2 == 1 then cleared ||| UInt8.ofNat (2 ^ (bit % 8)) else cleared
+        else v) v
   else d
 
 def pick (r : EpRec) (j : Int) : Option (List UInt8) :=
@@ -297,13 +305,7 @@ def expectView (b : Bunch) : Bunch :=
 def toNat! (s : String) : Nat := s.toNat?.getD 0
 def toInt! (s : String) : Int := s.toInt?.getD 0
 
-def World.step (w : World) (line : String) : World :=
-  let toks := (line.splitOn " ").filter (· != "")
-  match toks with
-  | [] => w
-  | op :: args =>
-    if op.startsWith "#" then w else
-    let w := w.say s!"> {String.intercalate " " toks}"
+def World.exec (w : World) (op : String) (args : List String) : World :=
     let a (i : Nat) : String := args.getD i ""
     let n (i : Nat) : Nat := toNat! (a i)
     match op with
@@ -413,6 +415,14 @@ def World.step (w : World) (line : String) : World :=
       match w.getEp (n 0) with
       | some r => match r.node with
         | .conn wr => w.say s!"ret {boolDigit wr.ep.c.bClose} {wr.ep.c.closeReason}"
+        | _ => w
+      | none => w
+    | "chans" =>
+      match w.getEp (n 0) with
+      | some r => match r.node with
+        | .conn wr =>
+          let items := wr.ep.c.chans.map fun (p : Nat × Channel) => s!" {p.1}:{boolDigit p.2.bClose}:{p.2.outRec.length}:{p.2.inRec.length}"
+          w.say s!"ret {wr.ep.c.chans.length}{String.join items}"
         | _ => w
       | none => w
     | "rpl" =>
@@ -582,5 +592,25 @@ def World.step (w : World) (line : String) : World :=
         | none => w.say "hexdump none"
       | none => w.say "hexdump none"
     | _ => w.say "badop"
+
+/-- one scenario line.  `ifconn <id> <op …>`: the application performs `<op>` only on a connection that is connected and not closed -/
+def World.step (w : World) (line : String) : World :=
+  let toks := (line.splitOn " ").filter (· != "")
+  match toks with
+  | [] => w
+  | op :: args =>
+    if op.startsWith "#" then w else
+    let w := w.say s!"> {String.intercalate " " toks}"
+    if op == "ifconn" then
+      match args with
+      | id :: op' :: args' =>
+        let ok := match w.getEp (toNat! id) with
+          | some r => match r.node with
+            | .conn wr => wr.ep.c.connected && !wr.ep.c.bClose
+            | _ => false
+          | none => false
+        if ok then w.exec op' args' else w.say "ret skip"
+      | _ => w.say "ret skip"
+    else w.exec op args
 
 end Utcp
